@@ -76,8 +76,25 @@ func (w *watcher) cycle() bool {
 	}
 	w.changes++
 	if lcdOn && mode == 2 {
-		w.bugChanges++
-		return true
+		// the OAM bug: whatever it does to the bytes, it needs the CPU to touch (or point a
+		// 16-bit register at) FE00-FEFF in this very cycle's unit
+		if w.f.UnitNearOAM() || w.f.UnitPartial() {
+			w.bugChanges++
+			return true
+		}
+	}
+	if lcdOn && mode == 2 && !(dma0 || dma1) {
+		var diff []string
+		for i := range after {
+			if after[i] != before[i] && len(diff) < 8 {
+				diff = append(diff, fmt.Sprintf("[FE%02X] %02X->%02X", i, before[i], after[i]))
+			}
+		}
+		regs := lockstep.Regs(m)
+		w.c.Violate("oam-changed-in-mode2-without-cpu-trigger", fmt.Sprintf("%s: OAM changed (%v) in a mode 2 cycle, no transfer running, while nothing the CPU is doing has to do with FE00-FEFF (PC=%04X SP=%04X BC=%04X DE=%04X HL=%04X, writes %v): neither a CPU write nor the OAM bug",
+			w.label, diff, regs.PC, regs.SP, regs.BC(), regs.DE(), regs.HL(), w.f.UnitWrites()), w.what())
+		w.failed = true
+		return false
 	}
 	if dma0 || dma1 {
 		// a transfer is running (and the OAM bug is out of the question): a byte may change
